@@ -139,6 +139,16 @@ impl FileSystem {
     }
 
     /// remove metadata from fs
+    /// Removes the metadata of an object that is (over)written without metadata
+    pub(crate) fn clear_metadata(&self, bucket: &str, key: &str) -> Result<()> {
+        let path = self.get_metadata_path(bucket, key, None)?;
+        match std::fs::remove_file(path) {
+            Ok(()) => Ok(()),
+            Err(ref e) if e.kind() == std::io::ErrorKind::NotFound => Ok(()),
+            Err(e) => Err(e.into()),
+        }
+    }
+
     pub(crate) fn delete_metadata(&self, bucket: &str, key: &str, upload_id: Option<Uuid>) -> Result<()> {
         let path = self.get_metadata_path(bucket, key, upload_id)?;
         std::fs::remove_file(path)?;
